@@ -7,6 +7,18 @@
 
 using namespace vsp;
 
+// car-like spaces (Dubins / Reeds-Shepp): two poses less than 5e-3 apart whose headings agree to 1e-9 - a micro-motion along (almost) the
+// heading, where the float word selection of the solvers is degenerate (cf. the C14 / C07 known findings). Failures that involve such a
+// pair are classified apart, so that the known degenerate case cannot absorb a defect on generic poses.
+static bool microMotion(const SpaceCfg &c, const Coords &p, const Coords &q)
+{
+    if (!c.headingOnly || p.size() < 3 || q.size() < 3)
+        return false;
+    double dh = std::fabs(std::remainder(p[2] - q[2], 2 * M_PI));
+    double dp = std::hypot(p[0] - q[0], p[1] - q[1]);
+    return dp > 0 && dp < 5e-3 && dh < 1e-9;
+}
+
 struct Laws
 {
     SpaceCfg &c;
@@ -48,7 +60,7 @@ struct Laws
         {
             double e = sp->distance(b, a);
             if (std::fabs(d - e) > tolFor(d))
-                fail("C06|symmetry|" + c.name, "d(a,b)=" + vf::jnum(d) + " but d(b,a)=" + vf::jnum(e) + " although the space claims a symmetric distance", rj(ca, cb));
+                fail("C06|symmetry|" + c.name + (microMotion(c, ca, cb) ? "|micro-motion-along-heading" : ""), "d(a,b)=" + vf::jnum(d) + " but d(b,a)=" + vf::jnum(e) + " although the space claims a symmetric distance", rj(ca, cb));
         }
         if (c.plainCompound)
         {
@@ -132,7 +144,7 @@ static void runSpace(const std::string &name, const vf::Args &a, vf::Report &rep
                         rep.evaluations++;
                         rep.transitions++;
                         if (ac > ab + bc + c.tol * (1 + std::fabs(ac)))
-                            rep.fail("C06|triangle|" + name,
+                            rep.fail("C06|triangle|" + name + ((microMotion(c, c.lattice[i], c.lattice[j]) || microMotion(c, c.lattice[j], c.lattice[k]) || microMotion(c, c.lattice[i], c.lattice[k])) ? "|micro-motion-along-heading" : ""),
                                      "isMetricSpace() is true but d(a,c)=" + vf::jnum(ac) + " > d(a,b)+d(b,c)=" + vf::jnum(ab) + "+" + vf::jnum(bc), L.rj(c.lattice[i], c.lattice[j], &c.lattice[k]));
                         if (i != j && j != k && i != k)
                         {
@@ -169,6 +181,8 @@ int main(int argc, char **argv)
             n.push_back(x);
         n.push_back("CompoundZeroW");
         n.push_back("CompoundZeroLast");
+        for (const char *x : {"ReedsShepp2", "ReedsSheppHalf", "Dubins2Sym"})
+            n.push_back(x);
         return n;
     };
     H.run = [](const std::string &job, const vf::Args &a, vf::Report &r) {
